@@ -110,34 +110,45 @@ def walker_selection(F, R, bodies, tag="C15-b"):
     # ---------------- C15-b ------------------------------------------------
     n_type_push = 0
     n_code_push = 0
+
+    def is_incl(y):
+        return any((z.get("fn") or "").endswith("GraphKind::include_types") for w in through_locals(y) for z in [peel_value(w)] if z.get("k") in ("MethodCall", "Call"))
+
+    def gated(n, body):
+        g = expand_local_guards(F, guards_at(F, n), body)
+        if any(x.kind == "cond" and x.pol and (x.node.get("fn") or "").endswith("GraphKind::include_types") for x in g):
+            return True
+        if any(x.kind == "cond" and x.pol and is_incl(x.node) for x in g):
+            return True
+        # `include_types.then_some(&dep.maybe_type)` / `.then(|| ..)`
+        for a in k_ancestors(n):
+            if a.get("k") == "MethodCall" and a["name"] in ("then_some", "then") and is_incl(a["recv"]):
+                return True
+        return False
+
     for b in bodies:
         for n in b["_nodes"]:
-            if n.get("k") == "MethodCall" and n["name"] == "push" and tyc(F, n["recv"], "Vec<&graph::Resolution>"):
-                a = peel_value(n["args"][0])
-                if a.get("k") == "Field" and a["field"] == "maybe_type":
+            if n.get("k") == "Field" and n.get("adt") == "graph::Dependency" and n["field"] in ("maybe_type", "maybe_code"):
+                if n["field"] == "maybe_type":
                     n_type_push += 1
-                    g = guards_at(F, n)
-                    ok = any(x.kind == "cond" and x.pol and (x.node.get("fn") or "").endswith("GraphKind::include_types") for x in g)
-                    R.ob(tag, "type resolution followed only when types are included [%s]" % b["path"].split("::")[-1], ok,
+                    R.ob(tag, "type resolution followed only when types are included [%s]" % b["path"].split("::")[-1], gated(n, b),
                          "`maybe_type` is followed without `kind.include_types()`: code-only walks would visit type-only modules", where(n))
-                elif a.get("k") == "Field" and a["field"] == "maybe_code":
+                else:
                     n_code_push += 1
-                    g = guards_at(F, n)
-                    conds = [x for x in g if x.kind == "cond" and mentions_call(x.node, ["GraphKind::include_types"])]
-                    R.ob(tag, "code resolution is always followed [%s]" % b["path"].split("::")[-1], not conds,
+                    g = expand_local_guards(F, guards_at(F, n), b)
+                    conds = [x for x in g if x.kind == "cond" and (mentions_call(x.node, ["GraphKind::include_types"]) or is_incl(x.node))]
+                    thens = [a for a in k_ancestors(n) if a.get("k") == "MethodCall" and a["name"] in ("then_some", "then")]
+                    R.ob(tag, "code resolution is always followed [%s]" % b["path"].split("::")[-1], not conds and not thens,
                          "`maybe_code` is only followed under a graph-kind condition", where(n))
     R.floor(tag + " type-resolution pushes", n_type_push, 2)
     R.floor(tag + " code-resolution pushes", n_code_push, 2)
     amd = F.body(IT + "::analyze_module_deps")
     for n in amd["_nodes"]:
-        if n.get("k") == "MethodCall" and n["name"] == "push" and tyc(F, n["recv"], "Vec<&graph::Resolution>"):
+        if n.get("k") == "Field" and n.get("adt") == "graph::Dependency" and n["field"] in ("maybe_type", "maybe_code"):
             g = guards_at(F, n)
-            ok = False
-            for x in g:
-                if x.kind == "cond" and x.pol and x.node.get("k") == "Binary" and x.node["op"] == "||":
-                    t = expr_text(x.node)
-                    if "is_dynamic" in t and "follow_dynamic" in t and "!" in t:
-                        ok = True
+            tab = guard_table(g, [("is_dynamic", lambda y: peel_value(y).get("k") == "Field" and peel_value(y)["field"] == "is_dynamic"),
+                                  ("follow_dynamic", lambda y: field_of(y) == "follow_dynamic")])
+            ok = all(reach == ((not d) or f) for (d, f), reach in tab.items())
             R.ob(tag, "dependencies are followed only if static or follow_dynamic", ok,
                  "dependency resolutions are followed without `!dep.is_dynamic || self.follow_dynamic`", where(n))
     nx = F.body("<graph::ModuleEntryIterator as std::iter::Iterator>::next")
@@ -190,7 +201,7 @@ def run(F, R, tier):
             elif "ModuleEntryRef::Redirect" in pt:
                 ps = [n for n in walk(arm["body"]) if n.get("k") == "MethodCall" and n["name"].startswith("push")]
                 binds = {b_["lid"] for b_ in pat_bindings(arm["pat"])}
-                direct = len(ps) == 1 and peel_value(ps[0]["args"][0]).get("lid") in binds
+                direct = len(ps) == 1 and any(peel_value(y).get("lid") in binds for y in through_locals(ps[0]["args"][0]))
                 R.ob("C15-c", "previous redirect: its own target (the next hop) is enqueued", len(ps) == 1 and not calls and direct,
                      "Redirect arm does not enqueue the redirect's own target (`%s`): intermediate hops of a redirect chain would not be yielded" % (expr_text(ps[0]["args"][0]) if ps else "nothing"), where(arm["body"]))
             else:
